@@ -110,7 +110,7 @@ let parse_item (s : string) : msg * n =
   | _ -> failwith "item"
 
 let parse_op (s : string) : op =
-  if s = "t" then Tick else begin
+  if s = "t" then Tick else if s.[0] = 'P' then SetPex (String.length s > 1 && s.[1] = '1') else begin
     let i = n_of_int (Char.code s.[1] - 48) in
     let arg () = String.sub s 3 (String.length s - 3) in
     match s.[0] with
